@@ -9,6 +9,7 @@ pub mod c11;
 pub mod c14;
 pub mod c15;
 pub mod c16;
+pub mod c20;
 pub mod tcp_pair;
 pub mod tcp_peer;
 pub mod tcp_sender;
@@ -30,7 +31,7 @@ pub struct Monitor {
 }
 
 pub fn all() -> Vec<Monitor> {
-    vec![tcp_pair::monitor_c01(), tcp_pair::monitor_c02(), tcp_peer::monitor_c04(), c05(), tcp_peer::monitor_c17(), c06::monitor(), c07::monitor(), c08(), c11::monitor(), tcp_pair::monitor_c13(), c14::monitor(), c15::monitor(), c16::monitor()]
+    vec![tcp_pair::monitor_c01(), tcp_pair::monitor_c02(), tcp_peer::monitor_c04(), c05(), tcp_peer::monitor_c17(), c06::monitor(), c07::monitor(), c08(), c11::monitor(), tcp_pair::monitor_c13(), c14::monitor(), c15::monitor(), c16::monitor(), c20::monitor()]
 }
 
 /// C08: checksum routine vs. reference (c08a) [+ emitted-valid and enforced parts when built]
